@@ -14,7 +14,7 @@ from . import build
 from .terms import Term, canon, from_json, to_json
 
 BLANK = {"e": "", "F": [], "cleanup": True, "fixed": [], "f": "", "kwargs": [], "results": [], "loaded": [], "cls": "", "msg": "", "args": [], "attributed": False, "disk": [], "linputs": [], "ldefaults": [], "shapes": [],
-         "storage_in": [], "storage_out": [], "mapspecs_in": [], "mapspecs_out": [], "proc": "", "fixedraw": []}
+         "storage_in": [], "storage_out": [], "mapspecs_in": [], "mapspecs_out": [], "proc": "", "fixedraw": [], "new_inputs": []}
 
 
 def ev(**kw) -> dict:
@@ -69,7 +69,8 @@ def tla_desc_to_py(d: dict) -> dict:
         funcs.append({"name": f["name"], "params": list(f["params"]), "outputs": list(f["outputs"]),
                       "defaults": {p: v for p, v in f["defaults"]}, "bound": {p: v for p, v in f["bound"]},
                       "mapspec": ms_string(f["ms"]) if f["has_ms"] else None,
-                      "internal_shape": list(f.get("internal", [])), "cache": bool(f.get("cache", False))})
+                      "internal_shape": list(f.get("internal", [])), "cache": bool(f.get("cache", False)),
+                      "retnone": bool(f.get("retnone", False))})
     return {"funcs": funcs}
 
 
